@@ -616,14 +616,18 @@ def plan_c19(tier, seed):
     for fl in (["asan"] if q else ["asan", "plain", "casan"]):
         jobs += [Job("h_arith", "rwd", fl, "small", "all", c, cpu=120) for c in chunks(64, 8)]
         jobs += [Job("h_arith", "rwd", fl, "boundary", "all", c, cpu=120) for c in chunks(65, 13)]
-        jobs += [Job("h_arith", "rwd", fl, "buckets", "all", (0, 8), cpu=120)]
+        jobs += [Job("h_arith", "rwd", fl, "buckets", "all", (0, 16), cpu=120)]
+        # collections with static storage duration (created before main): the same bucket selection
+        jobs += [Job("h_arith", cfg, fl, "buckets-static", "all", (0, 1), cpu=120) for cfg in (["rwd", "dbg"] if q else ["rel", "rwd", "dbg"])]
     nrand = 16 if q else 100
     per = 62500 if q else 1000000
     jobs += [Job("h_arith", "rwd", "asan" if q else "plain", "random", "all", c, extra=["--samples", str(per)], cpu=300) for c in chunks(nrand, 1)]
     return dict(jobs=jobs, level="exploration",
                 rule="inputs: the complete domain 1..65536 x all 64 power-of-two alignments; 2^k + d for every k in 0..64 and |d| <= 64 x all 64 "
                      "alignments; seeded 64-bit values x a seeded alignment; bucket selection for every size 1..max for three list types x two bucket "
-                     "distributions x eight maximum node sizes. evaluations = function evaluations compared with a definitional reference (loops / "
+                     "distributions x sixteen maximum node sizes (1..7, below the lists' own minimum node size, included), again after the array "
+                     "was move-assigned, and for six collection objects with static storage duration that are constructed before main (compared with "
+                     "the same object created in main; four live nodes of every size must be disjoint and keep their bytes). evaluations = function evaluations compared with a definitional reference (loops / "
                      "128-bit arithmetic); distinct_nontrivial = distinct (function input) tuples, counted exactly for the enumerated domains and by a "
                      "hash set for seeded samples of up to 2e6 values (larger sample runs count 0 for their part). Results not representable in 64 "
                      "bits are counted (not_representable_unjudged) and not judged.",
